@@ -170,14 +170,37 @@ Theorem C16_envelope_unknown_delete_refuted :
 Proof. exact envelope_unknown_delete_refuted. Qed.
 Print Assumptions C16_envelope_unknown_delete_refuted.
 
-(* ---- "unrouted paths get 404" (as far as the model reaches: httprouter's own 301/307/405/OPTIONS answers
-   are router-level and trusted; this is the NotFound handler) ---- *)
+(* ---- "unrouted paths get 404" ----
+   FULL STATEMENT of the text (every method and path that matches no registration is answered 404) is FALSE of the
+   router Burrow uses: httprouter answers some of them itself -- 301/307 redirect when the path with its trailing slash
+   toggled, or its cleaned / case-corrected form, is registered; 405 + Allow when the path is registered under another
+   method; 200 + Allow for OPTIONS on such a path (C16_ex_unrouted_kinds).  [router_level] is the specification-level
+   description of that behaviour (router.go ServeHTTP of httprouter v1.3.0, default options; trusted, compared with the real
+   router's status code on every unrouted case).  Proved, and exactly what is tied: a request that matches no registration
+   and is not answered at router level is handed to NotFound => 404, error=true, no backend request; the others get
+   one of the four router-level codes, again without any handler or backend request. *)
 Theorem C16_unrouted_404 :
   forall (tbl : list brow) (method path : bytes) (reqbody : Z) (b : backend) (cfg : tree),
     dispatch tbl method path = None ->
+    router_level tbl method path = None ->
     serve tbl method path reqbody b cfg = ([], Resp 404 false (BJson true true false None)).
 Proof. exact unrouted_404. Qed.
 Print Assumptions C16_unrouted_404.
+
+Theorem C16_unrouted_router_level :
+  forall (tbl : list brow) (method path : bytes) (reqbody : Z) (b : backend) (cfg : tree) (code : Z),
+    dispatch tbl method path = None ->
+    router_level tbl method path = Some code ->
+    serve tbl method path reqbody b cfg = ([], Resp code false BOpaque) /\
+    (code = 301 \/ code = 307 \/ code = 405 \/ code = 200).
+Proof. exact unrouted_router_level. Qed.
+Print Assumptions C16_unrouted_router_level.
+
+Theorem C16_unrouted_no_backend :
+  forall (tbl : list brow) (method path : bytes) (reqbody : Z) (b : backend) (cfg : tree),
+    dispatch tbl method path = None -> fst (serve tbl method path reqbody b cfg) = [].
+Proof. exact unrouted_no_backend. Qed.
+Print Assumptions C16_unrouted_no_backend.
 
 (* all of the above at the level of the server, for arbitrary method and path bytes *)
 Theorem C16_serve_envelope :
@@ -185,7 +208,9 @@ Theorem C16_serve_envelope :
   forall (b : backend), backend_typed b ->
   forall (method path : bytes) (reqbody : Z) (cfg : tree),
     match dispatch (compile_table tbl) method path with
-    | None => serve (compile_table tbl) method path reqbody b cfg = ([], default_handler)
+    | None => fst (serve (compile_table tbl) method path reqbody b cfg) = [] /\
+              (router_level (compile_table tbl) method path = None ->
+               serve (compile_table tbl) method path reqbody b cfg = ([], default_handler))
     | Some (row, ps) =>
         exists r, br_route row = Some r /\
           serve (compile_table tbl) method path reqbody b cfg = handle r ps reqbody b cfg /\
@@ -331,6 +356,28 @@ Example C16_ex_module :
   present RCfgStorageDetail [(s_name, pb "LOCAL")] 2 example_backend f9_cfg /\
   unknown_full RCfgStorageDetail [(s_name, pb "local.intervals")] example_backend f9_cfg.
 Proof. exact envelope_example_module. Qed.
+
+(* module names are compared as viper compares them, with Go's Unicode lower-casing: U+212A KELVIN SIGN + "afka" names
+   the configured module "kafka" (200), a truncated sequence does not (unknown) *)
+Example C16_ex_kelvin_sign_names_module :
+  present RCfgConsumerDetail [(s_name, kelvin_afka)] 2 example_backend kelvin_cfg /\
+  snd (handle RCfgConsumerDetail [(s_name, kelvin_afka)] 2 example_backend kelvin_cfg) = Resp 200 true (BJson false true true None) /\
+  unknown_full RCfgConsumerDetail [(s_name, [226; 132] ++ pb "afka")] example_backend kelvin_cfg.
+Proof. exact kelvin_sign_names_module. Qed.
+
+(* the kinds of unrouted requests on a three-row table: NotFound 404; trailing-slash 301; cleaned, case-corrected path
+   301; 307 for a non-GET method; 405; OPTIONS 200; OPTIONS on an unregistered path => NotFound *)
+Example C16_ex_unrouted_kinds :
+  router_level mini_table (pb "GET") (pb "/v3/no/such/uri") = None /\
+  snd (serve mini_table (pb "GET") (pb "/v3/no/such/uri") 2 example_backend (Node KNil)) = Resp 404 false (BJson true true false None) /\
+  dispatch mini_table (pb "GET") (pb "/v3/kafka/") = None /\
+  router_level mini_table (pb "GET") (pb "/v3/kafka/") = Some 301 /\
+  router_level mini_table (pb "GET") (pb "/V3//Kafka/./c1") = Some 301 /\
+  router_level mini_table (pb "DELETE") (pb "/v3/kafka/c1/consumer/g/") = Some 307 /\
+  router_level mini_table (pb "PUT") (pb "/v3/kafka") = Some 405 /\
+  router_level mini_table (pb "OPTIONS") (pb "/v3/kafka/c1") = Some 200 /\
+  router_level mini_table (pb "OPTIONS") (pb "/nothing") = None.
+Proof. exact unrouted_redirect_example. Qed.
 
 (* the contract is needed: FetchClusters answered with nil panics handleClusterList *)
 Example C16_ex_untyped_backend_crashes :
